@@ -105,6 +105,10 @@ def writePotentials(potentials, cutoff, gridPoints, out = sys.stdout):
   @param gridPoints Number of grid points used to tabulate potential
   @param out Python stream object (supporting write()) to which output is sent"""
 
+  #Check that number of grid points is divisible by 4 (whether or not there are any potentials to write)
+  if gridPoints%4 != 0:
+    raise WritePotentialException("The number of rows in a DL_POLY TABLE file needs to be divisible by 4. Number of rows specified = {} ".format(gridPoints))
+
   meshResolution = cutoff / (gridPoints-4.0)
   outputbuilder = StringIO()
   _writeTableHeader(meshResolution, cutoff, gridPoints, outputbuilder)
